@@ -190,7 +190,33 @@ def generic_sequence_update(
         )
 
 
+def without_obsolete_changes(all_changes: List[Change]) -> List[Change]:
+    """Changes inside of a node which is deleted or replaced by another change
+    are obsolete (an inner snapshot which is removed together with its
+    parent element)."""
+    removed_nodes = [
+        (change, change.node)
+        for change in all_changes
+        if isinstance(change, (Delete, Replace)) and change.node is not None
+    ]
+
+    def is_obsolete(change):
+        node = getattr(change, "node", None)
+        while node is not None:
+            if any(
+                node is removed_node and change is not removed_change
+                for removed_change, removed_node in removed_nodes
+            ):
+                return True
+            node = getattr(node, "parent", None)
+        return False
+
+    return [change for change in all_changes if not is_obsolete(change)]
+
+
 def apply_all(all_changes: List[Change], recorder: ChangeRecorder):
+    all_changes = without_obsolete_changes(all_changes)
+
     by_parent: Dict[
         EnhancedAST, List[Union[Delete, DictInsert, ListInsert, CallArg]]
     ] = defaultdict(list)
